@@ -165,12 +165,15 @@ def findValueChoice (e : BEnv) (Γ : Ctx) (var : XmlVar) (v : Val) : Except Err 
   | .prim p =>
     let tp : TypeRef := match p with
       | .str _ => .prim .str | .int _ => .prim .int | .bool _ => .prim .bool | .qname _ => .prim .qname
-    .ok (els.find? fun c =>
-      !(c.anyType || c.clazz.isSome) && !c.tokens &&
-      (c.types.contains tp ||
-        (match p with
-         | .str s => (deserialize e s c.types []).isSome     -- `converter.test(value, types)`
-         | _ => false)))
+    -- candidates of the value's exact type first, then the first one that converts it
+    let cands := els.filter fun c => !(c.anyType || c.clazz.isSome) && !c.tokens
+    match cands.find? (fun c => c.types.contains tp) with
+    | some c => .ok (some c)
+    | none =>
+      .ok (cands.find? fun c =>
+        match p with
+        | .str s => (deserialize e s c.types []).isSome     -- `converter.test(value, types)`
+        | _ => false)
   | _ => .error (.unsupported "find_value_choice")
 
 /-- `EventGenerator.convert_element` -/
